@@ -536,7 +536,7 @@ func (d *Downstream) isClosed() bool {
 	}
 }
 
-func (d *Downstream) resume(parentConn *Conn, generation uint64) error {
+func (d *Downstream) resume(parentConn *Conn, wireConn *wire.ClientConn, generation uint64) error {
 	d.logger.Infof(d.ctx, "Downstream start resuming [%s]", d.ID)
 	if d.isClosed() {
 		return fmt.Errorf("already closed downstream")
@@ -544,7 +544,6 @@ func (d *Downstream) resume(parentConn *Conn, generation uint64) error {
 	if !d.state.Is(streamStatusResuming) {
 		return fmt.Errorf("invalid state want[%v] but[%v]", streamStatusResuming, d.state)
 	}
-	wireConn := parentConn.currentWireConn()
 	d.wireConn.Store(wireConn)
 
 	var resErr error
